@@ -1264,6 +1264,7 @@ class CountFingerprint(Fingerprint):
         cf.counts = dict(
             [(k, int(v / x)) for k, v in self.counts.items() if v >= x]
         )
+        cf.indices = np.asarray(sorted(cf.counts.keys()), dtype=np.int64)
         return cf
 
     def __div__(self, x):
